@@ -95,6 +95,14 @@ def lane_shape(ty):
     return 1, ty_bits(ty)
 
 
+class PtrSel:
+    """select between two pointers (only loads through it are supported)"""
+    __slots__ = ('c', 'a', 'b')
+
+    def __init__(self, c, a, b):
+        self.c, self.a, self.b = c, a, b
+
+
 class Ptr:
     __slots__ = ('base', 'off')
 
@@ -284,8 +292,11 @@ class Interp:
         self.ret = None
         self.ncall = 0
         self.globals = {}
+        self.boolargs = set()
         for a, spec in zip(fn['args'], argspec):
-            name, elem = spec
+            name, elem = spec[0], spec[1]
+            if len(spec) > 2 and spec[2]:
+                self.boolargs.add(name)
             ty = parse_ty(a['ty'])
             if ty[0] == 'ptr':
                 self.env[a['id']] = Ptr(name, 0)
@@ -304,6 +315,9 @@ class Interp:
             if e is None:
                 raise Unsupported('unknown base ' + base)
             lane = off // e
+            if base in self.boolargs and e == 1:
+                # a C++ bool object holds 0 or 1 (anything else is UB): the byte is zext(bit 0)
+                return (tm.concat([tm.slice_(tm.inp(base, lane * 8, 8), 0, 1), tm.zeros(7)]), 0)
             return (tm.inp(base, lane * e * 8, e * 8), off - lane * e)
         if isinstance(base, tuple) and base[0] == 'alloca':
             return (tm.undef(8, 'uninit'), 0)
@@ -523,8 +537,10 @@ class Interp:
         h = getattr(self, 'op_' + op, None)
         if h is None:
             raise Unsupported('opcode ' + op)
-        if ins.get('fmf'):
-            raise Unsupported('fast-math flags present')
+        f = ins.get('fmf')
+        if f:
+            if not (str(f).strip() == 'nsz' and op == 'call' and ins.get('callee', '').startswith(('llvm.minnum', 'llvm.maxnum'))):
+                raise Unsupported('fast-math flags present: %s' % f)
         h(ins)
 
     def op_ret(self, ins):
@@ -588,11 +604,16 @@ class Interp:
 
     def op_getelementptr(self, ins):
         b = self.get(ins['base'])
-        if not isinstance(b, Ptr):
-            raise Unsupported('gep on non-pointer')
         if ins['off'] is None:
             raise Unsupported('variable gep')
-        self.env[ins['id']] = Ptr(b.base, b.off + ins['off'])
+        self.env[ins['id']] = self._gep(b, ins['off'])
+
+    def _gep(self, b, off):
+        if isinstance(b, PtrSel):
+            return PtrSel(b.c, self._gep(b.a, off), self._gep(b.b, off))
+        if not isinstance(b, Ptr):
+            raise Unsupported('gep on non-pointer')
+        return Ptr(b.base, b.off + off)
 
     def op_bitcast(self, ins):
         self.env[ins['id']] = self.get(ins['ops'][0])
@@ -605,16 +626,21 @@ class Interp:
 
     def op_load(self, ins):
         p = self.get(ins['ops'][0])
-        if not isinstance(p, Ptr):
-            raise Unsupported('load through non-pointer')
         ty = parse_ty(ins['ty'])
         if ty[0] == 'ptr':
             raise Unsupported('load of pointer')
         bits = ty_bits(ty)
-        v = self.mem.load(p.base, p.off, ins['bytes'])
+        v = self._load_ptr(p, ins['bytes'])
         if v.w != bits:
             v = tm.slice_(v, 0, bits)      # i1 stored as i8 etc.
         self.setv(ins, v)
+
+    def _load_ptr(self, p, nbytes):
+        if isinstance(p, PtrSel):
+            return tm.select(p.c, self._load_ptr(p.a, nbytes), self._load_ptr(p.b, nbytes))
+        if not isinstance(p, Ptr):
+            raise Unsupported('load through non-pointer')
+        return self.mem.load(p.base, p.off, nbytes)
 
     def op_store(self, ins):
         v = self.get(ins['ops'][0])
@@ -674,10 +700,21 @@ class Interp:
     def op_lshr(self, ins): self._shift(ins, tm.lshr, 'lshr')
     def op_ashr(self, ins): self._shift(ins, tm.ashr, 'ashr')
 
+    def _bool_lane(self, t):
+        return t.op == 'in' and t.w == 8 and t.args[0] in self.boolargs
+
     def op_icmp(self, ins):
         a, b = self.get(ins['ops'][0]), self.get(ins['ops'][1])
-        if isinstance(a, Ptr) or isinstance(b, Ptr):
+        if isinstance(a, (Ptr, PtrSel)) or isinstance(b, (Ptr, PtrSel)):
             raise Unsupported('pointer compare')
+        # a C++ bool object holds 0 or 1 (anything else is UB): (x != 0) is bit 0 of x
+        if ins['pred'] in ('eq', 'ne') and isinstance(a, T) and isinstance(b, T):
+            x, y = (a, b) if self._bool_lane(a) else (b, a)
+            if self._bool_lane(x) and y.op == 'const' and y.args[0] in (0, 1):
+                bit = tm.slice_(x, 0, 1)
+                truth = (y.args[0] == 1) == (ins['pred'] == 'eq')
+                self.setv(ins, bit if truth else tm.not_(bit))
+                return
         ty = parse_ty(ins['ty'])
         n, _ = lane_shape(ty)
         if n == 1:
@@ -698,7 +735,10 @@ class Interp:
 
     def op_select(self, ins):
         c, a, b = (self.get(o) for o in ins['ops'])
-        if isinstance(a, Ptr) or isinstance(b, Ptr):
+        if isinstance(a, (Ptr, PtrSel)) or isinstance(b, (Ptr, PtrSel)):
+            if isinstance(c, T) and c.w == 1:
+                self.env[ins['id']] = PtrSel(c, a, b)
+                return
             raise Unsupported('select of pointers')
         if isinstance(a, list):
             raise Unsupported('select of aggregates')
@@ -812,6 +852,13 @@ class Interp:
         args = [self.get(o) for o in ops]
         if base and not any(isinstance(a, Ptr) for a in args) and ty[0] == 'fp':
             self.setv(ins, self._fn(base, args, ty_bits(ty)))
+            return
+        if base in ('modf', 'frexp') and len(args) == 2 and isinstance(args[1], Ptr) and not isinstance(args[0], Ptr):
+            # write-only out parameter: integral part (same float type) / exponent (int)
+            x = args[0]
+            ow = x.w if base == 'modf' else 32
+            self.mem.store(args[1].base, args[1].off, tm.fn(base + '.out', [x], ow))
+            self.setv(ins, tm.fn(base + '.ret', [x], ty_bits(ty)))
             return
         self._opaque_call(ins, name, args, ty)
 
@@ -942,7 +989,7 @@ class Interp:
             opn = {'uadd': 'add', 'usub': 'sub', 'umul': 'mul', 'sadd': 'add', 'ssub': 'sub', 'smul': 'mul'}[base]
             res = tm.arith(opn, a, b)
             if base == 'uadd':
-                ov = tm.icmp('ult', res, a)
+                ov = tm.carry(a, b)
             elif base == 'usub':
                 ov = tm.icmp('ult', a, b)
             else:
